@@ -9,7 +9,7 @@ use cgmath::{BaseNum, Vector1, Vector2, Vector3, Vector4};
 use std::ops::Neg;
 
 /// scalar tiers for the vector laws (fields and overflow-free integers)
-pub trait Sn: BaseNum + Neg<Output = Self> + Send + Sync + 'static {
+pub trait Sn: BaseNum + num_traits::NumCast + Neg<Output = Self> + Send + Sync + 'static {
     const HAS_REM: bool;
     fn g(d: &mut Draw) -> Self;
     fn g_nz(d: &mut Draw) -> Self;
